@@ -251,4 +251,7 @@ var CollidingShapes = [][][]int{
 	{{2, 6}, {3, 4}, {4, 3}}, {{12, 1}, {1, 12}, {6, 2}}, {{2, 3}, {3, 2}}, {{1, 4}, {4, 1}, {2, 2}},
 	{{1, 1, 32}, {1, 2, 1}}, {{2, 1, 3}, {1, 3, 2}, {3, 2, 1}}, {{11}, {1, 1}}, {{32}, {1}}, {{1, 2, 13}, {1, 21, 3}},
 	{{3, 1, 4}, {4, 1, 3}}, {{2, 2, 3}, {3, 2, 2}, {2, 3, 2}}, {{5, 7}, {7, 5}, {35, 1}}, {{10, 1}, {1, 10}, {2, 5}},
+	// shapes of DIFFERENT rank that share a prefix or a suffix (a key built from the first or last few sizes, or one that ignores the rank)
+	{{2, 1, 2, 2, 3}, {2, 1, 2, 2, 5}, {2, 1, 2, 2}}, {{1, 2, 1, 2, 2, 2}, {1, 2, 1, 2, 2, 3}, {1, 2, 1, 2, 2}}, {{2, 3}, {2, 3, 1}, {2, 3, 2}, {1, 2, 3}},
+	{{3}, {3, 1}, {1, 3}, {1}}, {{2, 2}, {64}, {2, 1, 2}}, {{4, 4}, {128}, {4}},
 }
